@@ -1,5 +1,5 @@
 """Property -> rule functions."""
-from .rules import safety, codecs, determinism, exhaust, otl, tables, xmlvocab, container, fea, curves, cff, design
+from .rules import safety, codecs, determinism, exhaust, otl, tables, xmlvocab, container, fea, curves, cff, design, consistency
 
 
 def _scoped(fn, **kw):
@@ -15,10 +15,10 @@ PROPS = {
     "C01": [otl.f26_api_conform, otl.f3_schema_wf, otl.f2_conv_pair, tables.f1_fmt_pair] + tables.C01_EXTRA + [safety.f18_fallback, determinism.lazy_independence],
     "C02": [tables.f1_fmt_pair, otl.f2_conv_pair, otl.f3_schema_wf, codecs.f5_points, codecs.f5_deltas] + tables.C02_EXTRA,
     "C03": xmlvocab.ALL + [tables.glyf_component, codecs.tag_ident, codecs.f22_fixed_tools, otl.f2_conv_pair, tables.pair_exhaustive],
-    "C04": [container.f10_dep_order, container.container_constants, container.alignment, container.directory_and_checksums, container.f22_recalc_twins, container.checksum_twins, tables.woff_discriminator],
-    "C06": otl.C06,
-    "C07": exhaust.ALL_C07 + [_scoped(exhaust.f19_varidx, scope=("subset/",), rule="F19"), _scoped(determinism.f12_set_order, scope=("subset/",), rule="F12-subset")],
-    "C08": exhaust.ALL_C08 + [_scoped(exhaust.f19_varidx, scope=("varLib/instancer/",), rule="F19"), _scoped(determinism.f12_set_order, scope=("varLib/instancer/",), rule="F12-instancer")],
+    "C04": [container.f10_dep_order, container.container_constants, container.alignment, container.directory_and_checksums, container.f22_recalc_twins, container.checksum_twins, tables.woff_discriminator, consistency.unpack_order],
+    "C06": otl.C06 + [consistency.numbered_twins],
+    "C07": exhaust.ALL_C07 + [consistency.key_fields, _scoped(exhaust.f19_varidx, scope=("subset/",), rule="F19"), _scoped(determinism.f12_set_order, scope=("subset/",), rule="F12-subset")],
+    "C08": exhaust.ALL_C08 + [consistency.key_fields, _scoped(exhaust.f19_varidx, scope=("varLib/instancer/",), rule="F19"), _scoped(determinism.f12_set_order, scope=("varLib/instancer/",), rule="F12-instancer")],
     "C10": design.C10 + [_scoped(exhaust.f19_varidx, scope=("varLib/__init__.py", "varLib/merger.py", "varLib/cff.py", "varLib/varStore.py", "varLib/featureVars.py"), rule="F19"), _scoped(determinism.f12_set_order, scope=("varLib/__init__.py", "varLib/merger.py", "varLib/models.py", "varLib/cff.py", "varLib/featureVars.py", "varLib/varStore.py", "varLib/builder.py", "varLib/stat.py", "varLib/avar/"), rule="F12-varlib")],
     "C11": fea.ALL + [_scoped(exhaust.f19_varidx, scope=("feaLib/",), rule="F19"), _scoped(determinism.f12_set_order, scope=("feaLib/", "otlLib/"), rule="F12-fea")],
     "C12": cff.ALL + [codecs.f6_tables, codecs.f5_ps_operands, codecs.f5_subr_bias],
@@ -28,4 +28,15 @@ PROPS = {
     "C17": exhaust.ALL_C17,
     "C19": design.C19,
     "C20": safety.ALL,
+}
+
+
+# extra scope for the thorough tier (whole-package variants of scoped rules)
+THOROUGH_EXTRA = {
+    "C07": [_scoped(determinism.f12_set_order, scope=None, rule="F12-all")],
+    "C08": [_scoped(determinism.f12_set_order, scope=None, rule="F12-all")],
+    "C10": [_scoped(determinism.f12_set_order, scope=None, rule="F12-all"), _scoped(exhaust.f19_varidx, scope=("",), rule="F19-all")],
+    "C11": [_scoped(exhaust.f19_varidx, scope=("",), rule="F19-all")],
+    "C13": [_scoped(curves.duplicate_conjuncts, scope=("cu2qu/", "qu2cu/", "pens/", "misc/bezierTools.py", "misc/arrayTools.py", "misc/transform.py"))],
+    "C01": [tables.glyf_component],
 }
